@@ -12,3 +12,5 @@ pub(crate) use self::manager::IntentGuard;
 pub(crate) use self::manager::{Index, IntentMeta};
 pub use self::manager::{IndexError, IndexReadGuard};
 pub use self::state::IndexStateItem;
+#[cfg(feature = "verif-hooks")]
+pub(crate) use self::state::{IndexState, IndexStateError};
